@@ -41,7 +41,7 @@ def gen_observers(rng, all_prob=0.3):
             ft = None
         else:
             ft = [x for x in lv if rng.random() < 0.6] or [rng.choice(lv)]
-        obs.append({"t": t, "ft": ft, "how": rng.choice(["str", "enum", "config"])})
+        obs.append({"t": t, "ft": ft, "how": rng.choice(["str", "enum", "config", "class"])})
     return obs
 
 
@@ -53,7 +53,7 @@ def generate(seed, tier):
                         positive=True if names else None)
     obs = mark_manual(stream(seed, "c11-manual"), gen_observers(rng), 0.08)
     if rng.random() < 0.7:
-        obs.append({"t": "composite"})
+        obs.append({"t": "composite", "explicit": stream(seed, "c11-explicit").random() < 0.3})
         if rng.random() < 0.12:
             obs.append({"t": "composite"})  # picks up every subscribed feature observer, the first composite included
     consult = [(0.12, lambda r: ["consult", r.choice(CONSULT)])] if rng.random() < 0.4 else None
